@@ -355,6 +355,7 @@ func ExerciseReader(tag string, mr metadata.Reader, regs []uint32, rec *Rec, pas
 		return
 	}
 	rec.Try(tag+".cache", func() error { return vr.Cache() })
+	rec.Settle()
 	if len(regs) > 40 {
 		regs = regs[:40]
 	}
@@ -425,6 +426,7 @@ func ExerciseReader(tag string, mr metadata.Reader, regs []uint32, rec *Rec, pas
 		dc.Close()
 		os.RemoveAll(fmt.Sprintf("%s/p%d", passDir, mb[0]))
 	}
+	rec.Settle()
 }
 
 // TargetUnpack runs estargz.Unpack with every decompressor and drains (a bounded part of) it.
